@@ -323,6 +323,35 @@ def sparse_layer_in_support_ufo(rng, ds):
     return True
 
 
+def lone_full_master(rng, ds):
+    """Every master but the default one becomes a sparse master (a UFO of its own that only
+    redraws some component bases): the composites - a mixed one and a plain one are added - then
+    exist in ONE source only, yet hold glyphs that change along the axis."""
+    di = masters.default_source_index(ds)
+    dflt = ds["ufos"][ds["sources"][di]["ufo"]]
+    simple = [g["name"] for g in dflt["glyphs"] if g["contours"] and not g["components"]
+              and g["name"] != ".notdef"]
+    if not simple:
+        return False
+    base = simple[0]
+    dflt["glyphs"].append({"name": "ld.mixed", "width": 640, "unicodes": [], "anchors": [],
+                           "contours": [[[0, 0, "line"], [90, 0, "line"], [40, 70, "line"]]],
+                           "components": [{"base": base, "t": [1, 0, 0, 1, 120, 0]}]})
+    dflt["glyphs"].append({"name": "ld.alias", "width": 650, "unicodes": [], "anchors": [],
+                           "contours": [], "components": [{"base": base, "t": [1, 0, 0, 1, 15, 0]}]})
+    done = False
+    for k, s_ in enumerate(ds["sources"]):
+        if k == di or s_.get("layerName") or s_.get("sparse_ufo") or s_["ufo"] == ds["sources"][di]["ufo"]:
+            continue
+        u = ds["ufos"][s_["ufo"]]
+        keep = {base} | set(rng.sample(simple, rng.randint(0, min(2, len(simple)))))
+        u["glyphs"] = [g for g in u["glyphs"] if g["name"] in keep]
+        u["kerning"], u["groups"] = [], {}
+        s_["sparse_ufo"] = True
+        done = True
+    return done
+
+
 def gen(rng, idx, tier):
     func = rng.choice(FUNCS)
     kinds = rng.choice([["line", "curve"], ["line", "curve", "qcurve"], ["curve"], ["line", "qcurve"]])
@@ -437,8 +466,12 @@ def gen(rng, idx, tier):
                             if g["name"] == tgt and g["components"]:
                                 t = g["components"][0]["t"]
                                 g["components"][0]["t"] = ([0.75, 0, 0, 1] if ui == k else [1, 0, 0, 1]) + list(t[4:])
+    lone = False
+    if func != "compileInterpolatableTTFs" and stratum == "default" and not skip \
+            and len(ds["axes"]) == 1 and rng.random() < 0.1:
+        lone = lone_full_master(rng, ds)
     return {"func": func, "ds": ds, "opts": opts, "skip": skip, "filter": filt, "filter_via": filter_via,
-            "sparse_omits_axis": sparse_omits_axis, "stratum": stratum, "support_ufo": support, "lib": rng.choice(["defcon", "ufoLib2"])}
+            "lone_full_master": lone, "sparse_omits_axis": sparse_omits_axis, "stratum": stratum, "support_ufo": support, "lib": rng.choice(["defcon", "ufoLib2"])}
 
 
 def sample_view(case):
@@ -543,6 +576,8 @@ def run(case):
         bump("mirrored_stratum_cases")
     if case.get("support_ufo"):
         bump("sparse_layer_in_support_ufo")
+    if case.get("lone_full_master"):
+        bump("families_with_one_full_master_and_sparse_masters_only")
     is_tt = "glyf" in loaded[0]
     bump("ttf_runs" if is_tt else "otf_runs")
     if case["opts"].get("flattenComponents"):
